@@ -109,12 +109,12 @@ def check(pid, tier, seed):
     except ExtractError as e:
         print(f"UNDECIDED property={pid}: {e}")
         write_evidence(pid, tier, seed, cfg, [], [], [], [f"extraction failed: {e}"], time.time() - t0, undecided=[str(e)])
-        if tier == "thorough":
-            _info, sweep_lines, sweep_rc = candidate_sweep(pid, cfg, False)
-            for l in sweep_lines:
-                print(l)
-            if sweep_rc == 1:
-                return 1
+        # undecided by the verifier: the stored inputs still decide what they can (both tiers)
+        _info, sweep_lines, sweep_rc = candidate_sweep(pid, cfg, False)
+        for l in sweep_lines:
+            print(l)
+        if sweep_rc == 1:
+            return 1
         return 2
 
     obligations = []      # ids
@@ -222,6 +222,23 @@ def check(pid, tier, seed):
     rc = 0
     out_lines = []
     for k in kf:
+        if k.get("replay_only"):
+            # a defect outside the reach of every contract, seen only by running its stored input on the real crate
+            what = " ".join(str(k.get("what", "")).split())
+            try:
+                import witness
+                err = witness.build(REPO)
+                r = None if err else witness.run_one(k["witness"]["kind"], k["witness"]["input"])
+            except Exception as e:
+                err, r = str(e), None
+            if r is None:
+                out_lines.append(f"note: known finding {k['obligation']} could not be replayed ({str(err)[-200:]})")
+            elif r["violated"]:
+                out_lines.append(f"KNOWN-FINDING: property={pid} {k['obligation']} {what}")
+                known_hit.append(k["obligation"])
+            else:
+                out_lines.append(f"note: known finding {k['obligation']} did not fail on this tree")
+            continue
         if k["obligation"] in failed:
             what = " ".join(str(k.get("what", "")).split())
             out_lines.append(f"KNOWN-FINDING: property={pid} {k['obligation']} {what}")
@@ -238,11 +255,12 @@ def check(pid, tier, seed):
             out_lines.append(f"VIOLATION property={pid} replay={path}{suffix}")
             d = failed[o][0]
             out_lines.append(f"  obligation {o}: {d.message} (at {getattr(d, 'where', d.obligation)})")
-    # ---- thorough tier: the stored candidate inputs are also run against the real crate.  This decides nothing about
+    # ---- thorough tier (and the quick tier when the verifier is undecided): the stored candidate inputs are also run
+    # against the real crate.  This decides nothing about
     # the contracts; but an input on which the real code violates the property's own statement is a violation whatever
     # the verifier's verdict was (e.g. when a change moved the code out of the verifier's reach: exit 2 above).
     sweep_info = None
-    if tier == "thorough":
+    if tier == "thorough" or (undecided and not violations):
         sweep_info, sweep_lines, sweep_rc = candidate_sweep(pid, cfg, bool(violations))
         out_lines += sweep_lines
         if sweep_rc == 1:
@@ -371,7 +389,7 @@ def write_evidence(pid, tier, seed, cfg, runs, obligations, failed, assumptions,
             "not_reached": cfg.get("not_reached", []),
             "failed_obligations": sorted(failed.keys()),
             "known_findings_hit": known_hit or [],
-            "stored_inputs_replayed_on_real_crate": sweep if sweep is not None else "not run (thorough tier only)",
+            "stored_inputs_replayed_on_real_crate": sweep if sweep is not None else "not run (thorough tier, or whenever the verifier is undecided)",
             "undecided": undecided or [],
             "vacuity_twins": twins,
             "extraction_drops": "attributes other than std derives/#[default]; visibility qualifiers; `crate::`/`super::` path prefixes; `use` lines; #[cfg(test)] modules (never extracted)",
